@@ -43,10 +43,23 @@ pub fn run(group: &str, seed: u64) -> i32 {
         "poly" => poly::poly_all(&mut t, seed),
         "fft" => poly::fft_all(&mut t, seed),
         "mle" => poly::mle_all(&mut t, seed),
+        "par_big" => poly::par_big(&mut t, seed),
         "curve_group" => curve::group_law(&mut t),
         "curve_scalar" => curve::scalar_mul(&mut t, seed),
         "curve_msm" => curve::msm(&mut t, seed),
         "curve_ser" => curve::serialization(&mut t),
+        "bigint" => {
+            // BigInt<N>, N = 1..4: boundary-limb operands (0, 1, 2^63 +- 1, 2^64 - 1, ...) in the extreme limbs, all pairs,
+            // shift amounts 0, 1, 63, 64, 65, 127..129, 64N-1, 64N, 64N+1, 100000; oracle = num-bigint
+            let mut rng = crate::Rng(seed.wrapping_mul(0x9E3779B97F4A7C15) | 1);
+            for u in ["BigInt::add_with_carry", "BigInt::sub_with_borrow", "BigInt::mul2", "BigInt::div2", "BigInt::mul", "BigInt::shl_assign", "BigInt::shr_assign",
+                      "BigInt::cmp", "BigInt::is_odd", "BigInt::get_bit", "BigInt::num_bits", "BigInt::not", "BigInt::is_zero", "BigInt::find_wnaf", "BigInt::find_naf"] {
+                if let Some(w) = crate::bigint_units::search(u, &mut rng) {
+                    t.check(false, || format!("{u}: {w}"));
+                }
+            }
+            t.cases += crate::bigint_units::CASES.load(std::sync::atomic::Ordering::Relaxed);
+        },
         _ => {
             println!("unknown bounded group {group}");
             return 2;
